@@ -794,6 +794,49 @@ def rule_r7(prog, res):
     res.floor('R7', 'waivers in Interface.has_class', k, 2)
 
 
+# ------------------------------------------------------------------- R8
+def rule_r8(prog, res):
+    res.rule('R8', 'a second function under an interface key that is already '
+             'taken is rejected, not taken for a repeated registration')
+    itf = prog.cls('spyne.interface._base:Interface')
+    f = itf.methods.get('process_method')
+    if f is None:
+        raise AnalysisError('Interface.process_method', 'not found')
+    # the "already registered" branch
+    branches = [n for n in walk_no_defs(f.node) if isinstance(n, ast.If) and
+                any(isinstance(c, ast.Compare) and isinstance(
+                    c.ops[0], ast.In) and 'method_id_map' in unparse(
+                        c.comparators[0]) for c in ast.walk(n.test))]
+    res.floor('R8', 'already-registered branches in process_method',
+              len(branches), 1)
+    br = branches[0]
+    raises = [r for st in br.body for r in ast.walk(st)
+              if isinstance(r, ast.Raise)]
+    plain = []
+    for r in raises:
+        atoms = guardspec.atoms_at(r, br)
+        # a raise for plain service methods: no parent class involved, and
+        # conditioned on the stored descriptor being another one
+        if any('is None' in t and pol for t, pol in atoms) and any(
+                ('is not method' in t and pol) or ('is method' in t and
+                                                   not pol)
+                for t, pol in atoms):
+            plain.append(r)
+    ok = bool(plain)
+    where = '%s:%d' % (f.module.relpath, br.lineno)
+    res.ob('R8', where, 'process_method: the already-registered branch has '
+           '%d raising paths, %d of them for a different descriptor of a '
+           'plain service method' % (len(raises), len(plain)),
+           'ok' if ok else 'VIOLATED')
+    if not ok:
+        res.finding('R8', 'Interface.process_method|silent-shadow', where,
+                    'a method whose interface key is already registered is '
+                    'dropped without comparing the descriptors: two @rpc '
+                    'functions that answer to the same message name (bare '
+                    'methods with one _in_message_name) are accepted and the '
+                    'second one can never be called')
+
+
 def run(prog, res, tier):
     res.run_rule(rule_r1, prog, res, tier)
     res.run_rule(rule_r2, prog, res)
@@ -802,6 +845,7 @@ def run(prog, res, tier):
     res.run_rule(rule_r5, prog, res)
     res.run_rule(rule_r6, prog, res)
     res.run_rule(rule_r7, prog, res)
+    res.run_rule(rule_r8, prog, res)
 
 
 _P = 'spyne/protocol/_base.py'
@@ -812,6 +856,11 @@ _W = 'spyne/server/wsgi.py'
 _X = 'spyne/protocol/xml.py'
 
 MUTANTS = [
+    Mutant('same-key-silently-shadowed', 'R8', 'fire',
+           'spyne/interface/_base.py',
+           in_func('Interface.process_method',
+                   "if om is not method and om.function is not "
+                   "method.function:", "if False:"), 'silent-shadow'),
     Mutant('wsdl-shortcut-any-suffix', 'R7', 'fire', _W,
            in_func('WsgiApplication.is_wsdl_request',
                    "req_env['PATH_INFO'].endswith('.wsdl')",
